@@ -5,6 +5,7 @@ from props_common import *
 
 sys.path.insert(0, os.path.join(os.path.dirname(os.path.abspath(__file__)), "tools"))
 from gen_eph import gen_eph
+from extract_c03 import gen_c03
 
 
 def c03_ops(rng, tier):
@@ -32,10 +33,11 @@ PROP = {
     "id": "C03",
     "thm_module": "Tyme.Thm.C03",
     "thm_file": "Tyme/Thm/C03.lean",
-    "lean_targets": ["Tyme.Thm.C03"],
+    "lean_targets": ["Tyme.Thm.C03", "Tyme.Facts.C03Leap"],
+    "fact_files": [("Tyme/Facts/C03Leap.lean", "Tyme.Facts.C03Leap")],
     "audit_files": ["Tyme/Lemmas/Lunar.lean", "Tyme/Model/Lunar.lean", "Tyme/Model/Eph.lean", "Tyme/Model/RealEph.lean",
-                    "Tyme/Facts/Months.lean", "Tyme/Facts/MonthsFact.lean", "Tyme/Basic/Packed.lean"],
-    "gen": [gen_eph],
+                    "Tyme/Facts/Months.lean", "Tyme/Facts/MonthsFact.lean", "Tyme/Basic/Packed.lean", "Tyme/Model/LeapTable.lean", "Tyme/Facts/C03Leap.lean"],
+    "gen": [gen_eph, gen_c03],
     "streams": [
         {"name": "c03.grid", "spec": False},      # from_ym acceptance for every (year -2..10000, month -13..13)
         {"name": "c03.months", "spec": False},    # every listed month through the memoised constructor + year data
@@ -47,5 +49,5 @@ PROP = {
     "rule": "c03.grid: all 270,081 (year, month) candidates for from_ym; c03.months: all 123,684 lunations (first day, length, index) and "
             "10,000 year records; c03.tiles: the property itself per lunation (abuts next, 29/30 days, numbering) and per year (12/13, "
             "length range, = new-year distance); c03.next: 15 step counts from every month (quick: years 0..300 + every 10th). "
-            "Table fact C03_tiles_fact is kernel-evaluated over all 10,000 year records of the re-extracted data.",
+            "Translator T: the packed leap-month strings are lifted from the text of src/tyme/lunar.rs and C03_leap_table proves that their decoding answers the dumped leap month for every year 0..9999 with pairwise disjoint month lists. Table fact C03_tiles_fact is kernel-evaluated over all 10,000 year records of the re-extracted data.",
 }
